@@ -498,7 +498,7 @@ func C15(c *run.Check) {
 	c.Sample(map[string]string{"kind": "xml-bytes", "input": "<a x=\"&#"})
 	c.Sample(map[string]string{"kind": "expr-tokens", "input": "u() | $n [ boom() ]"})
 	c.Sample(map[string]string{"kind": "json-bytes", "input": "{\"a\":[1e"})
-	c.Rule = "ALL strings up to a length bound over five alphabets, in worker subprocesses: expression token strings (C08 alphabet + nil variable, user functions returning (nil,nil) / an error / panicking, huge numbers) built AND executed on 2 documents under 3 binding sets; expression byte strings (incl. invalid UTF-8, NUL, and valid 2-, 4- and 9-byte characters/names); XML, JSON byte strings and HTML token strings through ReadXml/ReadJson/ReadHtml followed by 6 queries on whatever tree comes back; the well-typed C01/C08 expression universes from every node must never give an 'xpath query panic' error; Unmarshal of 7 result shapes (empty/1/2/all nodes, string, number, boolean) into 8 target shapes (*S, **S, *[]S, *[]T, *T, **S with nil inner pointer, typed nil, non-pointer) for 40 field types x 12/30 tag expressions; nesting-depth sweeps (parentheses, predicates, steps, unions, expression nesting up to 400/2000, document depth/width up to 400/100000) in subprocesses. Oracle: the call returns, with (non-nil value, nil) or (_, non-nil error); no panic escapes; the process survives"
+	c.Rule = "ALL strings up to a length bound over five alphabets, in worker subprocesses: expression token strings (C08 alphabet + nil variable, user functions returning (nil,nil) / an error / panicking, huge numbers) built AND executed on 2 documents under 3 binding sets; expression byte strings (incl. invalid UTF-8, NUL, and valid 2-, 4- and 9-byte characters/names); XML, JSON byte strings and HTML token strings through ReadXml/ReadJson/ReadHtml followed by 6 queries on whatever tree comes back; the well-typed C01/C08 expression universes from every node must never give an 'xpath query panic' error; Unmarshal of 7 result shapes (empty/1/2/all nodes, string, number, boolean) into 8 target shapes (*S, **S, *[]S, *[]T, *T, **S with nil inner pointer, typed nil, non-pointer) for 50 field types (incl. defined types such as a named int64, float64, string, []string) x 12/30 tag expressions; nesting-depth sweeps (parentheses, predicates, steps, unions, expression nesting up to 400/2000, document depth/width up to 400/100000) in subprocesses. Oracle: the call returns, with (non-nil value, nil) or (_, non-nil error); no panic escapes; the process survives"
 	c.Assume("bounded exhaustive, not coverage-guided: crashing inputs whose shortest form is longer than the bound are out of reach; the values Unmarshal produces are decided by C19")
 }
 
